@@ -514,8 +514,13 @@ static const char *str_search(const char *needle, const char *haystack, int hays
 
 static bool parse_comment(TokenContext &ctx, Chunk &pc)
 {
-   bool   is_d    = language_is_set(lang_flag_e::LANG_D);
-   bool   is_cs   = language_is_set(lang_flag_e::LANG_CS);
+   bool is_d = language_is_set(lang_flag_e::LANG_D);
+   // a backslash in front of the line break continues a '//' comment only where
+   // lines are spliced before comments are recognised (the C preprocessor)
+   bool splices = (  language_is_set(lang_flag_e::LANG_C)
+                  || language_is_set(lang_flag_e::LANG_CPP)
+                  || language_is_set(lang_flag_e::LANG_OC)
+                  || language_is_set(lang_flag_e::LANG_PAWN));
    size_t d_level = 0;
 
    // does this start with '/ /' or '/ *' or '/ +' (d)
@@ -554,7 +559,7 @@ static bool parse_comment(TokenContext &ctx, Chunk &pc)
             }
 
             if (  (ch == '\\') // 92
-               && !is_cs)      // backslashes aren't special in comments in C#
+               && splices)     // backslashes aren't special in comments in C#, Java, D, ...
             {
                bs_cnt++;
             }
